@@ -2,72 +2,399 @@
 
 package controller
 
-// C19 harness 3: the legacy Handler.saltAuthToken on synthetic requests with tokens in every placement.
-// The outgoing request is taken apart and searched for the unsalted secrets.
+// C19 harness 3: the legacy federation path of the controller, observed at the wire.
+//   CLegacy: Handler.remoteClusterRequest(remote, req) (saltAuthToken + URL rebuild + proxy.Do) on synthetic
+//            requests with tokens in every placement; the request handed to the HTTP client is recorded.
+//   CStack:  the same requests through the whole legacy stack (setupProxyRemoteCluster: generic handler by
+//            uuid / cluster_id, multi-cluster uuid queries, collection by uuid / by PDH); everything sent to a
+//            remote cluster is recorded.
+// Nothing goes over a socket: the Handler's HTTP clients use a recording transport.  The recorded requests are
+// taken apart (Authorization, query string, body, Cookie, everything else) and printed with every reading
+// (raw, URL-unescaped, base64-decoded); the search for the unsalted secrets is done in Coq.
 
 import (
-	"encoding/base64"
+	"context"
+	"database/sql"
+	"database/sql/driver"
+	"errors"
 	"fmt"
-	"io/ioutil"
+	"io"
 	"net/http"
 	"net/http/httptest"
 	"net/url"
 	"os"
 	"sort"
 	"strings"
+	"sync"
 	"testing"
 
 	"git.arvados.org/arvados.git/sdk/go/arvados"
 	"git.arvados.org/arvados.git/sdk/go/auth"
+	"github.com/jmoiron/sqlx"
 )
 
-func c19Pairs(v url.Values) [][2]string {
-	var keys []string
-	for k := range v {
-		keys = append(keys, k)
-	}
-	sort.Strings(keys)
-	var out [][2]string
-	for _, k := range keys {
-		for _, x := range v[k] {
-			out = append(out, [2]string{k, x})
-		}
-	}
-	return out
+// ---- a stub database behind Handler.db(): answers validateAPItoken's SELECT from a table keyed by the
+// api_token column and records createAPItoken's INSERT ----
+
+type c19DBRow struct{ authUUID, scopes, userUUID string }
+type c19DB struct {
+	mu       sync.Mutex
+	rows     map[string]c19DBRow
+	inserted [][2]string // uuid, secret of created tokens
+	lookups  []string
 }
-func c19PairsTerm(ps [][2]string) string {
-	var xs []string
-	for _, p := range ps {
-		xs = append(xs, "("+gStr(p[0])+", "+gStr(p[1])+")")
-	}
-	return gList(xs)
+type c19Connector struct{ db *c19DB }
+
+func (c c19Connector) Connect(context.Context) (driver.Conn, error) { return &c19Conn{c.db}, nil }
+func (c c19Connector) Driver() driver.Driver                        { return c19Driver{} }
+
+type c19Driver struct{}
+
+func (c19Driver) Open(string) (driver.Conn, error) { return nil, errors.New("c19 stub: use the connector") }
+
+type c19Conn struct{ db *c19DB }
+
+func (c *c19Conn) Prepare(q string) (driver.Stmt, error) { return &c19Stmt{c.db, strings.TrimSpace(q)}, nil }
+func (c *c19Conn) Close() error                          { return nil }
+func (c *c19Conn) Begin() (driver.Tx, error)             { return nil, errors.New("c19 stub: no transactions") }
+
+type c19Stmt struct {
+	db *c19DB
+	q  string
 }
 
-func c19Found(secrets []string, texts ...string) bool {
-	for _, s := range secrets {
-		for _, t := range texts {
-			if strings.Contains(t, s) {
+func (s *c19Stmt) Close() error  { return nil }
+func (s *c19Stmt) NumInput() int { return -1 }
+func (s *c19Stmt) Exec(args []driver.Value) (driver.Result, error) {
+	if !strings.HasPrefix(s.q, "INSERT INTO api_client_authorizations") || len(args) < 2 {
+		return nil, errors.New("c19 stub: unexpected statement " + s.q)
+	}
+	s.db.mu.Lock()
+	defer s.db.mu.Unlock()
+	s.db.inserted = append(s.db.inserted, [2]string{fmt.Sprint(args[0]), fmt.Sprint(args[1])})
+	return driver.RowsAffected(1), nil
+}
+func (s *c19Stmt) Query(args []driver.Value) (driver.Rows, error) {
+	if !strings.HasPrefix(s.q, "SELECT api_client_authorizations.uuid") || len(args) != 1 {
+		return nil, errors.New("c19 stub: unexpected query " + s.q)
+	}
+	s.db.mu.Lock()
+	defer s.db.mu.Unlock()
+	key := fmt.Sprint(args[0])
+	s.db.lookups = append(s.db.lookups, key)
+	row, ok := s.db.rows[key]
+	return &c19Rows{row: row, have: ok}, nil
+}
+
+type c19Rows struct {
+	row        c19DBRow
+	have, done bool
+}
+
+func (r *c19Rows) Columns() []string { return []string{"uuid", "scopes", "uuid"} }
+func (r *c19Rows) Close() error      { return nil }
+func (r *c19Rows) Next(dest []driver.Value) error {
+	if !r.have || r.done {
+		return io.EOF
+	}
+	r.done = true
+	dest[0], dest[1], dest[2] = r.row.authUUID, r.row.scopes, r.row.userUUID
+	return nil
+}
+
+const c19RailsHost = "rails.local.example"
+
+func c19RemoteHost(id string) string { return "r" + id + ".remote.example" }
+
+type c19Req struct {
+	method, target, ctype, body string
+	authHdr                     string
+	basicUser, basicPass        string
+	basic                       bool
+	cookieTok                   string
+	hasCookie, otherCookie      bool
+	via                         string
+	reqid                       string
+	term                        string
+	secrets                     []string
+	places                      []string
+	query, form                 url.Values
+	tokens                      []string          // every distinct token drawn, in order
+	secretOf                    map[string]string // unsalted v2 token -> its secret
+	legacy                      []string          // legacy-format tokens drawn for a database lookup
+}
+
+// does the token make validateAPItoken index past the end of strings.Split(token, "/") (a crash of the
+// controller that is outside C19; such cases run with the database unreachable, as before)
+func c19CrashesValidate(tok string) bool {
+	return strings.HasPrefix(tok, "v2/") && strings.Count(tok, "/") < 2
+}
+
+// c19GenReq draws a request for path with tokens in a subset of the placements; extraQuery/extraForm are
+// parameters the route needs (cluster_id, filters, ...).  noForm: the route needs a request without a body.
+func c19GenReq(r *vRand, remote, path string, extraQuery, extraForm url.Values, noForm bool, method, jsonBody string) *c19Req {
+	q := &c19Req{secretOf: map[string]string{}}
+	pick0 := func() string {
+		switch r.Intn(15) {
+		case 0:
+			tok, kind := c19Token(r, remote)
+			if strings.ContainsAny(tok, "\x00\r\n") || kind == "random-bytes" || kind == "tiny" {
+				tok = "opaque" + c19Str(r, c19Alnum, 8)
+			}
+			return tok
+		case 1:
+			return "v2/aaaaa-gj3su-" + c19Str(r, c19Alnum, 15) + "/" + c19Str(r, "0123456789abcdef", 40) // salted for another cluster
+		case 2, 3, 4:
+			tok := c19Str(r, c19Alnum, 41+r.Intn(15))
+			q.legacy = append(q.legacy, tok)
+			return tok
+		}
+		tok, s := c19V2(r, remote)
+		q.secrets = append(q.secrets, s)
+		q.secretOf[tok] = s
+		return tok
+	}
+	pick := func() string {
+		t := pick0()
+		q.tokens = append(q.tokens, t)
+		return t
+	}
+	if jsonBody != "" {
+		noForm = true
+	}
+	var shared string
+	tokenFor := func() string {
+		if shared != "" && r.Bool() {
+			return shared
+		}
+		t := pick()
+		if shared == "" {
+			shared = t
+		}
+		return t
+	}
+	// placements: a subset, weighted so that single placements are common
+	var places []string
+	switch r.Intn(10) {
+	case 0:
+		places = []string{"form"}
+	case 1:
+		places = []string{"cookie"}
+	case 2:
+		places = []string{"query"}
+	case 3:
+		places = []string{[]string{"bearer", "oauth2", "basic"}[r.Intn(3)]}
+	case 4:
+		places = nil
+	default:
+		for _, p := range []string{"hdr", "query", "form", "cookie"} {
+			if r.Chance(2, 5) {
+				if p == "hdr" {
+					p = []string{"bearer", "oauth2", "basic"}[r.Intn(3)]
+				}
+				places = append(places, p)
+			}
+		}
+	}
+	if noForm {
+		var ps []string
+		for _, p := range places {
+			if p == "form" {
+				p = "query"
+			}
+			dup := false
+			for _, x := range ps {
+				dup = dup || x == p
+			}
+			if !dup {
+				ps = append(ps, p)
+			}
+		}
+		places = ps
+	}
+	has := func(p string) bool {
+		for _, x := range places {
+			if x == p {
 				return true
 			}
 		}
+		return false
 	}
-	return false
-}
-
-// all readings of a header/body text in which a token could hide
-func c19Readings(t string) []string {
-	out := []string{t}
-	if u, err := url.QueryUnescape(t); err == nil {
-		out = append(out, u)
+	query := url.Values{}
+	if r.Bool() && extraQuery.Get("filters") == "" && extraForm.Get("filters") == "" {
+		query.Set("limit", fmt.Sprint(r.Intn(100)))
 	}
-	for _, f := range strings.FieldsFunc(t, func(c rune) bool { return c == ' ' || c == ';' || c == '=' || c == ',' }) {
-		for _, enc := range []*base64.Encoding{base64.StdEncoding, base64.URLEncoding, base64.RawStdEncoding, base64.RawURLEncoding} {
-			if b, err := enc.DecodeString(f); err == nil {
-				out = append(out, string(b))
-			}
+	if r.Chance(1, 4) && extraQuery.Get("filters") == "" && extraForm.Get("filters") == "" {
+		query.Add("filters", `[["uuid","=","x y+z"]]`)
+	}
+	for k, vs := range extraQuery {
+		query[k] = append([]string(nil), vs...)
+	}
+	if has("query") {
+		query.Add("api_token", tokenFor())
+		if r.Chance(1, 6) {
+			query.Add("api_token", tokenFor())
 		}
 	}
-	return out
+	form := url.Values{}
+	for k, vs := range extraForm {
+		form[k] = append([]string(nil), vs...)
+	}
+	switch {
+	case has("form"):
+		q.ctype = "application/x-www-form-urlencoded"
+		if r.Chance(1, 8) && len(extraForm) == 0 {
+			q.ctype = []string{"application/x-www-form-encoded", "application/x-www-form-urlencoded; charset=UTF-8"}[r.Intn(2)]
+		}
+		form.Set("api_token", tokenFor())
+		if r.Bool() {
+			form.Set("foo", "bar baz")
+		}
+		q.body = form.Encode()
+	case len(extraForm) > 0:
+		q.ctype = "application/x-www-form-urlencoded"
+		q.body = form.Encode()
+	case jsonBody != "":
+		q.ctype, q.body = "application/json", jsonBody
+	case noForm:
+	case r.Chance(1, 4):
+		q.ctype = "application/x-www-form-urlencoded"
+		form.Set("foo", "bar")
+		if r.Bool() {
+			form.Set("ensure_unique_name", "true")
+		}
+		q.body = form.Encode()
+	case r.Chance(1, 4):
+		q.ctype = "application/json"
+		q.body = `{"a":1}`
+	case r.Chance(1, 8):
+		q.ctype = "application/x-www-form-encoded"
+		form.Set("foo", "bar")
+		q.body = form.Encode()
+	}
+	q.method = method
+	if q.body != "" && (q.method == "" || q.method == "DELETE") {
+		q.method = "POST"
+	}
+	if q.method == "" {
+		q.method = "GET"
+	}
+	q.target = "http://controller.example" + path
+	if enc := query.Encode(); enc != "" {
+		q.target += "?" + enc
+	}
+	q.reqid = "req-" + c19Str(r, c19Alnum, 8)
+	authTerm := "ANone"
+	switch {
+	case has("bearer"):
+		tk := tokenFor()
+		q.authHdr = "Bearer " + tk
+		authTerm = "(ABearer " + gStr(tk) + ")"
+	case has("oauth2"):
+		tk := tokenFor()
+		q.authHdr = "OAuth2 " + tk
+		authTerm = "(ABearer " + gStr(tk) + ")"
+	case has("basic"):
+		tk := tokenFor()
+		q.basic, q.basicUser, q.basicPass = true, []string{"none", "", "git"}[r.Intn(3)], tk
+		authTerm = "(ABasic " + gStr(q.basicUser) + " " + gStr(tk) + ")"
+	case r.Chance(1, 8):
+		q.authHdr = []string{"Digest abc", "bearer opaquelowercase", "Bearer", "Token xyz"}[r.Intn(4)]
+		authTerm = "(AOther " + gStr(q.authHdr) + ")"
+	}
+	cookieTerm := "None"
+	if has("cookie") {
+		q.hasCookie, q.cookieTok = true, tokenFor()
+		cookieTerm = "(Some " + gStr(q.cookieTok) + ")"
+		q.otherCookie = r.Bool()
+	}
+	q.places, q.query, q.form = places, query, form
+	q.term = fmt.Sprintf("(Rq %s %s %s %s %s)", authTerm, c19PairsTerm(c19Pairs(query)), gStr(q.ctype), c19PairsTerm(c19Pairs(form)), cookieTerm)
+	return q
+}
+
+func (q *c19Req) build() *http.Request {
+	req := httptest.NewRequest(q.method, q.target, strings.NewReader(q.body))
+	if q.ctype != "" {
+		req.Header.Set("Content-Type", q.ctype)
+	}
+	req.Header.Set("X-Request-Id", q.reqid)
+	if q.basic {
+		req.SetBasicAuth(q.basicUser, q.basicPass)
+	} else if q.authHdr != "" {
+		req.Header.Set("Authorization", q.authHdr)
+	}
+	if q.hasCookie {
+		req.AddCookie(&http.Cookie{Name: "arvados_api_token", Value: auth.EncodeTokenCookie([]byte(q.cookieTok))})
+		if q.otherCookie {
+			req.AddCookie(&http.Cookie{Name: "other", Value: "1"})
+		}
+	}
+	if q.via != "" {
+		req.Header.Set("Via", q.via)
+	}
+	return req
+}
+
+func c19Handler(rec *c19Recorder, db *c19DB, remotes ...string) *Handler {
+	h := &Handler{Cluster: &arvados.Cluster{ClusterID: "aaaaa", RemoteClusters: map[string]arvados.RemoteCluster{}}}
+	h.Cluster.PostgreSQL.Connection = arvados.PostgreSQLConnection{"host": "127.0.0.1", "port": "1", "connect_timeout": "1"}
+	h.Cluster.API.MaxItemsPerResponse = 1000
+	h.Cluster.API.MaxRequestAmplification = 4
+	h.Cluster.Services.RailsAPI.InternalURLs = map[arvados.URL]arvados.ServiceInstance{{Scheme: "http", Host: c19RailsHost}: {}}
+	for _, id := range remotes {
+		h.Cluster.RemoteClusters[id] = arvados.RemoteCluster{Host: c19RemoteHost(id), Scheme: "http", Proxy: true, Insecure: len(id)%2 == 0}
+	}
+	h.proxy = &proxy{Name: "arvados-controller"}
+	h.secureClient = &http.Client{Transport: rec, CheckRedirect: neverRedirect}
+	h.insecureClient = &http.Client{Transport: rec, CheckRedirect: neverRedirect}
+	if db != nil {
+		h.pgdb = sqlx.NewDb(sql.OpenDB(c19Connector{db}), "postgres")
+	}
+	return h
+}
+
+func c19DestOf(host string, remotes []string) string {
+	for _, id := range remotes {
+		if host == c19RemoteHost(id) {
+			return id
+		}
+	}
+	return "?" + host
+}
+
+// c19GenDB decides whether the database is reachable in this case and what it knows about the legacy-format
+// tokens of the request.  belongs: cluster prefixes a known token's user may have besides the local one.
+// Returns the stub (nil: unreachable), the Gallina table (option (list (token, db_result))), and the legacy
+// tokens that must not leave unsalted: known here, user of this cluster.
+func c19GenDB(r *vRand, q *c19Req, belongs []string, force bool) (*c19DB, string, []string, string) {
+	reachable := r.Intn(3) > 0 || force
+	for _, t := range q.tokens {
+		if c19CrashesValidate(t) {
+			reachable = false
+		}
+	}
+	if !reachable {
+		return nil, "None", nil, "unreachable"
+	}
+	db := &c19DB{rows: map[string]c19DBRow{}}
+	var terms, protect []string
+	for _, t := range q.legacy {
+		if _, dup := db.rows[t]; dup || r.Chance(1, 4) {
+			continue // not found
+		}
+		user := "aaaaa"
+		if r.Chance(2, 5) {
+			user = belongs[r.Intn(len(belongs))]
+		}
+		row := c19DBRow{authUUID: "aaaaa-gj3su-" + c19Str(r, c19Alnum, 15), scopes: `["all"]`, userUUID: user + "-tpzed-" + c19Str(r, c19Alnum, 15)}
+		db.rows[t] = row
+		terms = append(terms, fmt.Sprintf("(%s, DbFound %s %s %s)", gStr(t), gStr(row.userUUID), gStr(row.authUUID), gStr(t)))
+		if user == "aaaaa" {
+			protect = append(protect, t)
+		}
+	}
+	return db, "(Some " + gList(terms) + ")", protect, fmt.Sprintf("reachable/%d-known", len(terms))
 }
 
 func TestVerifC19Legacy(t *testing.T) {
@@ -79,202 +406,245 @@ func TestVerifC19Legacy(t *testing.T) {
 		stage = "c19legacy"
 	}
 	cs := vNewCases(stage)
-	h := &Handler{Cluster: &arvados.Cluster{ClusterID: "aaaaa"}}
-	h.Cluster.PostgreSQL.Connection = arvados.PostgreSQLConnection{"host": "127.0.0.1", "port": "1", "connect_timeout": "1"}
 	for i := 0; i < n; i++ {
 		if only >= 0 && i != only {
 			continue
 		}
 		r := vCaseRand(seed, i)
+		if i%3 == 2 {
+			c19StackCase(t, cs, i, r)
+			continue
+		}
 		remote := c19Remote(r)
 		if remote == "" {
 			remote = "bbbbb"
 		}
-		var secrets []string
-		var tags []string
-		pick := func() string {
-			switch r.Intn(12) {
-			case 0:
-				tok, kind := c19Token(r, remote)
-				if strings.ContainsAny(tok, "\x00\r\n") || kind == "random-bytes" || kind == "tiny" {
-					tok = "opaque" + c19Str(r, c19Alnum, 8)
-				}
-				return tok
-			case 1:
-				return "v2/aaaaa-gj3su-" + c19Str(r, c19Alnum, 15) + "/" + c19Str(r, "0123456789abcdef", 40) // salted for another cluster
-			}
-			tok, s := c19V2(r, remote)
-			secrets = append(secrets, s)
-			return tok
+		q := c19GenReq(r, remote, "/arvados/v1/workflows", nil, nil, false, "", "")
+		db, dbTerm, protect, dbTag := c19GenDB(r, q, []string{remote, "ccccc"}, false)
+		secrets := append(append([]string(nil), q.secrets...), protect...)
+		rec := &c19Recorder{}
+		h := c19Handler(rec, db, remote, "ccccc")
+		resp, err := h.remoteClusterRequest(remote, q.build())
+		if resp != nil && resp.Body != nil {
+			resp.Body.Close()
 		}
-		var shared string
-		tokenFor := func() string {
-			if shared != "" && r.Bool() {
-				return shared
-			}
-			t := pick()
-			if shared == "" {
-				shared = t
-			}
-			return t
-		}
-		// placements: a subset, weighted so that single placements are common
-		var places []string
-		switch r.Intn(10) {
-		case 0:
-			places = []string{"form"}
-		case 1:
-			places = []string{"cookie"}
-		case 2:
-			places = []string{"query"}
-		case 3:
-			places = []string{[]string{"bearer", "oauth2", "basic"}[r.Intn(3)]}
-		case 4:
-			places = nil
-		default:
-			for _, p := range []string{"hdr", "query", "form", "cookie"} {
-				if r.Chance(2, 5) {
-					if p == "hdr" {
-						p = []string{"bearer", "oauth2", "basic"}[r.Intn(3)]
-					}
-					places = append(places, p)
-				}
-			}
-		}
-		has := func(p string) bool {
-			for _, q := range places {
-				if q == p {
-					return true
-				}
-			}
-			return false
-		}
-		query := url.Values{}
-		if r.Bool() {
-			query.Set("limit", fmt.Sprint(r.Intn(100)))
-		}
-		if r.Chance(1, 4) {
-			query.Add("filters", `[["uuid","=","x y+z"]]`)
-		}
-		if has("query") {
-			query.Add("api_token", tokenFor())
-			if r.Chance(1, 6) {
-				query.Add("api_token", tokenFor())
-			}
-		}
-		form := url.Values{}
-		ctype := ""
-		body := ""
-		switch {
-		case has("form"):
-			ctype = "application/x-www-form-urlencoded"
-			if r.Chance(1, 8) {
-				ctype = []string{"application/x-www-form-encoded", "application/x-www-form-urlencoded; charset=UTF-8"}[r.Intn(2)]
-			}
-			form.Set("api_token", tokenFor())
-			if r.Bool() {
-				form.Set("foo", "bar baz")
-			}
-			body = form.Encode()
-		case r.Chance(1, 4):
-			ctype = "application/x-www-form-urlencoded"
-			form.Set("foo", "bar")
-			if r.Bool() {
-				form.Set("ensure_unique_name", "true")
-			}
-			body = form.Encode()
-		case r.Chance(1, 4):
-			ctype = "application/json"
-			body = `{"a":1}`
-		case r.Chance(1, 8):
-			ctype = "application/x-www-form-encoded"
-			form.Set("foo", "bar")
-			body = form.Encode()
-		}
-		method := "GET"
-		if body != "" {
-			method = "POST"
-		}
-		target := "http://controller.example/arvados/v1/workflows"
-		if enc := query.Encode(); enc != "" {
-			target += "?" + enc
-		}
-		req := httptest.NewRequest(method, target, strings.NewReader(body))
-		if ctype != "" {
-			req.Header.Set("Content-Type", ctype)
-		}
-		req.Header.Set("X-Request-Id", "req-"+c19Str(r, c19Alnum, 8))
-		authTerm := "ANone"
-		switch {
-		case has("bearer"):
-			tk := tokenFor()
-			req.Header.Set("Authorization", "Bearer "+tk)
-			authTerm = "(ABearer " + gStr(tk) + ")"
-		case has("oauth2"):
-			tk := tokenFor()
-			req.Header.Set("Authorization", "OAuth2 "+tk)
-			authTerm = "(ABearer " + gStr(tk) + ")"
-		case has("basic"):
-			tk := tokenFor()
-			user := []string{"none", "", "git"}[r.Intn(3)]
-			req.SetBasicAuth(user, tk)
-			authTerm = "(ABasic " + gStr(user) + " " + gStr(tk) + ")"
-		case r.Chance(1, 8):
-			v := []string{"Digest abc", "bearer opaquelowercase", "Bearer", "Token xyz"}[r.Intn(4)]
-			req.Header.Set("Authorization", v)
-			authTerm = "(AOther " + gStr(v) + ")"
-		}
-		cookieTerm := "None"
-		if has("cookie") {
-			tk := tokenFor()
-			req.AddCookie(&http.Cookie{Name: "arvados_api_token", Value: auth.EncodeTokenCookie([]byte(tk))})
-			cookieTerm = "(Some " + gStr(tk) + ")"
-			if r.Bool() {
-				req.AddCookie(&http.Cookie{Name: "other", Value: "1"})
-			}
-		}
-		reqTerm := fmt.Sprintf("(Rq %s %s %s %s %s)", authTerm, c19PairsTerm(c19Pairs(query)), gStr(ctype), c19PairsTerm(c19Pairs(form)), cookieTerm)
-
-		out, err := h.saltAuthToken(req, remote)
+		sent := rec.take()
 		oErr := err != nil
 		var oAuth string
 		var oQuery [][2]string
-		var inAuth, inQuery, inBody, inCookie, inOther bool
+		var parts []c19Part
+		if oErr && len(sent) != 0 {
+			t.Fatalf("case %d: remoteClusterRequest failed (%v) after sending %d request(s)", i, err, len(sent))
+		}
 		if !oErr {
-			oAuth = out.Header.Get("Authorization")
-			qv, qerr := url.ParseQuery(out.URL.RawQuery)
+			if len(sent) != 1 {
+				t.Fatalf("case %d: expected one outgoing request, got %d", i, len(sent))
+			}
+			if sent[0].Host != c19RemoteHost(remote) {
+				t.Fatalf("case %d: request for %q went to host %q", i, remote, sent[0].Host)
+			}
+			oAuth = sent[0].Header.Get("Authorization")
+			qv, qerr := url.ParseQuery(sent[0].RawQuery)
 			if qerr != nil {
 				t.Fatalf("outgoing query does not parse: %v", qerr)
 			}
 			oQuery = c19Pairs(qv)
-			var outBody []byte
-			if out.Body != nil {
-				outBody, _ = ioutil.ReadAll(out.Body)
-			}
-			inAuth = c19Found(secrets, c19Readings(strings.Join(out.Header["Authorization"], " "))...)
-			inQuery = c19Found(secrets, c19Readings(out.URL.RawQuery)...)
-			inBody = c19Found(secrets, c19Readings(string(outBody))...)
-			inCookie = c19Found(secrets, c19Readings(strings.Join(out.Header["Cookie"], "; "))...)
-			var other []string
-			for k, vs := range out.Header {
-				if k != "Authorization" && k != "Cookie" {
-					other = append(other, k+": "+strings.Join(vs, ","))
-				}
-			}
-			other = append(other, out.URL.Path, out.URL.RawPath, out.URL.Fragment, out.Host, out.Method)
-			if out.URL.User != nil {
-				other = append(other, out.URL.User.String())
-			}
-			inOther = c19Found(secrets, c19Readings(strings.Join(other, "\n"))...)
+			parts = c19Parts(sent[0])
 		}
-		term := fmt.Sprintf("CLegacy %s %s %s %s %s %s %s %s %s %s %s", reqTerm, gStr(remote), gStrs(secrets), gBool(oErr), gStr(oAuth), c19PairsTerm(oQuery),
-			gBool(inAuth), gBool(inQuery), gBool(inBody), gBool(inCookie), gBool(inOther))
-		desc := map[string]interface{}{"index": i, "kind": "legacy", "remote": remote, "placements": places, "content_type": ctype, "query": query, "form": form,
-			"error": fmt.Sprint(err), "authorization_out": oAuth, "secret_in_authorization": inAuth, "secret_in_query": inQuery, "secret_in_body": inBody,
-			"secret_in_cookie": inCookie, "secret_elsewhere": inOther, "secrets": secrets}
+		leaks := c19Leaks(secrets, parts)
+		term := fmt.Sprintf("CLegacy %s %s %s %s %s %s %s %s", q.term, gStr(remote), dbTerm, gStrs(secrets), gBool(oErr), gStr(oAuth), c19PairsTerm(oQuery), c19PartsTerm(parts))
+		desc := map[string]interface{}{"index": i, "kind": "legacy remoteClusterRequest", "remote": remote, "placements": q.places, "content_type": q.ctype,
+			"method": q.method, "target": q.target, "body": q.body, "authorization": q.authHdr, "basic_password": q.basicPass, "cookie_token": q.cookieTok,
+			"database": dbTerm, "error": fmt.Sprint(err), "sent": sent, "secret_found_in": c19LeakList(leaks), "secrets": secrets}
+		places := append([]string(nil), q.places...)
 		sort.Strings(places)
-		tags = append(tags, "placements="+strings.Join(places, "+"), fmt.Sprintf("legacy-error=%v", oErr), fmt.Sprintf("leak=%v", inAuth || inQuery || inBody || inCookie || inOther))
-		cs.Add(i, term, desc, len(secrets) > 0, tags...)
+		cs.Add(i, term, desc, len(secrets) > 0, "placements="+strings.Join(places, "+"), fmt.Sprintf("legacy-error=%v", oErr), fmt.Sprintf("leak=%v", len(leaks) > 0), "database="+dbTag)
 	}
 	cs.Write()
+}
+
+// one request through setupProxyRemoteCluster with remotes bbbbb, zzzzz, zzzz, zzzzzz; the local RailsAPI is
+// played by the same recording transport (host rails.local.example; what goes there does not leave the cluster)
+func c19StackCase(t *testing.T, cs *vCases, i int, r *vRand) {
+	remotes := []string{"bbbbb", "zzzzz", "zzzz", "zzzzzz"}
+	res := [][2]string{{"workflows", "7fd4e"}, {"containers", "dz642"}, {"container_requests", "xvhdp"}, {"links", "o0j2j"}, {"collections", "4zz18"}}
+	uuidOf := func(cluster, infix string) string { return cluster + "-" + infix + "-" + c19Str(r, c19Alnum, 15) }
+	var kind, path, method, jsonBody string
+	var extraQ, extraF url.Values
+	noForm := false
+	dest := []string{"bbbbb", "zzzzz"}[r.Intn(2)]
+	rs := res[r.Intn(len(res))]
+	switch k := r.Intn(14); {
+	case k < 4:
+		kind = "uuid"
+		path = "/arvados/v1/" + rs[0] + "/" + uuidOf(dest, rs[1])
+		if rs[0] == "containers" && r.Chance(1, 3) {
+			path += "/lock"
+		}
+		if r.Chance(1, 4) {
+			method = []string{"PUT", "DELETE", "POST"}[r.Intn(3)]
+		}
+	case k < 6:
+		kind = "cluster_id"
+		if rs[0] == "container_requests" {
+			rs = res[0]
+		}
+		dest = remotes[r.Intn(len(remotes))]
+		path = "/arvados/v1/" + rs[0]
+		if r.Bool() {
+			extraQ = url.Values{"cluster_id": {dest}}
+		} else {
+			extraF = url.Values{"cluster_id": {dest}}
+			if r.Bool() {
+				extraF.Set("_method", "GET")
+			}
+		}
+	case k < 8:
+		kind = "multi"
+		path = "/arvados/v1/" + rs[0]
+		us := []string{uuidOf("bbbbb", rs[1]), uuidOf("zzzzz", rs[1])}
+		if r.Bool() {
+			us = append(us, uuidOf([]string{"aaaaa", "bbbbb", "zzzzz"}[r.Intn(3)], rs[1]))
+		}
+		vals := url.Values{"filters": {`[["uuid","in",["` + strings.Join(us, `","`) + `"]]]`}}
+		if r.Bool() {
+			vals.Set("count", "none")
+		}
+		if r.Chance(1, 3) {
+			vals.Set("select", `["uuid","name"]`)
+		}
+		if r.Bool() {
+			extraQ, noForm = vals, true
+		} else {
+			vals.Set("_method", "GET")
+			extraF = vals
+		}
+	case k < 9:
+		kind, noForm = "pdh", true
+		path = "/arvados/v1/collections/" + c19Str(r, "0123456789abcdef", 32) + "+" + fmt.Sprint(r.Intn(1000))
+	case k < 13:
+		// legacy remoteContainerRequestCreate: a container request for another cluster
+		kind, method = "crcreate", "POST"
+		path = "/arvados/v1/container_requests"
+		dest = []string{"bbbbb", "zzzzz", "bbbbb", "zzzzz", "zzzz", "aaaaa"}[r.Intn(6)]
+		extraQ = url.Values{"cluster_id": {dest}}
+		cr := `{"command":["echo","ok"],"container_image":"arvados/jobs","cwd":"/","output_path":"/out"`
+		if r.Chance(1, 5) {
+			cr += `,"runtime_token":"v2/aaaaa-gj3su-` + c19Str(r, c19Alnum, 15) + `/` + c19Str(r, c19Alnum, 50) + `"`
+		}
+		cr += "}"
+		jsonBody = []string{`{"container_request":` + cr + `}`, cr}[r.Intn(2)]
+	default:
+		kind = "local"
+		path = "/arvados/v1/" + rs[0]
+		if r.Bool() {
+			path += "/" + uuidOf("aaaaa", rs[1])
+		} else if rs[0] == "container_requests" {
+			path = "/arvados/v1/workflows"
+		}
+	}
+	q := c19GenReq(r, dest, path, extraQ, extraF, noForm, method, jsonBody)
+	for try := 0; kind == "crcreate" && try < 8; try++ {
+		// this route indexes Tokens[0] and looks the first token up whatever its format
+		crash := len(q.tokens) == 0 || len(q.places) == 0
+		for _, tok := range q.tokens {
+			crash = crash || c19CrashesValidate(tok)
+		}
+		if !crash {
+			break
+		}
+		q = c19GenReq(r, dest, path, extraQ, extraF, noForm, method, jsonBody)
+	}
+	if r.Chance(1, 12) {
+		q.via = []string{"1.1 some-proxy", "HTTP/1.1 arvados-controller"}[r.Intn(2)]
+	}
+	db, dbTerm, protect, dbTag := c19GenDB(r, q, []string{"bbbbb", "zzzzz", "ccccc"}, kind == "crcreate")
+	secrets := append(append([]string(nil), q.secrets...), protect...)
+	if kind == "crcreate" {
+		// validateAPItoken looks at the first token, whatever its format: the database must answer (the
+		// Go code indexes Tokens[0], so the request must carry a token), and it knows most v2 tokens by
+		// their secret.  A token issued by another cluster is forwarded as runtime_token by design: only
+		// the secrets of tokens issued here (uuid aaaaa-...) are judged.
+		if db == nil || len(q.tokens) == 0 || len(q.places) == 0 {
+			kind = "crcreate-skipped"
+			q = c19GenReq(r, dest, "/arvados/v1/workflows", url.Values{"cluster_id": {dest}}, nil, true, "GET", "")
+			db, dbTerm, protect, dbTag = nil, "None", nil, "unreachable"
+			secrets = append([]string(nil), q.secrets...)
+		} else {
+			secrets = append([]string(nil), protect...)
+			for _, tok := range q.tokens {
+				s, isV2 := q.secretOf[tok]
+				if !isV2 {
+					continue
+				}
+				uuid := strings.Split(tok, "/")[1]
+				if strings.HasPrefix(uuid, "aaaaa") {
+					secrets = append(secrets, s)
+				}
+				if r.Chance(1, 5) {
+					continue // unknown here
+				}
+				user := []string{"aaaaa", "aaaaa", "bbbbb", "zzzzz", "ccccc"}[r.Intn(5)]
+				scopes := []string{`["all"]`, `["all"]`, `["all"]`, `["all"]`, `["all","GET /"]`, `["GET /arvados/v1/users/current"]`, `[]`}[r.Intn(7)]
+				db.rows[s] = c19DBRow{authUUID: uuid, scopes: scopes, userUUID: user + "-tpzed-" + c19Str(r, c19Alnum, 15)}
+			}
+		}
+	}
+	rec := &c19Recorder{respond: func(req *http.Request, body string) (int, string) {
+		if collectionsByPDHRe.MatchString(req.URL.Path) {
+			return 404, `{"errors":["not found"]}`
+		}
+		return 200, `{"kind":"arvados#objectList","items":[]}`
+	}}
+	h := c19Handler(rec, db, remotes...)
+	stack := h.setupProxyRemoteCluster(prepend(http.NotFoundHandler(), h.proxyRailsAPI))
+	rw := httptest.NewRecorder()
+	stack.ServeHTTP(rw, q.build())
+	all := rec.take()
+	var sentTerms []string
+	var sentDesc []interface{}
+	leaks := map[string]bool{}
+	nlocal, minted := 0, 0
+	if db != nil {
+		minted = len(db.inserted)
+	}
+	for _, s := range all {
+		if s.Host == c19RailsHost {
+			nlocal++
+			continue
+		}
+		if db != nil {
+			// the created token is random: name it, so that the case is reproducible
+			for k, ins := range db.inserted {
+				s.Body = strings.ReplaceAll(strings.ReplaceAll(s.Body, ins[1], fmt.Sprintf("createdtokensecret%d", k)), ins[0], fmt.Sprintf("aaaaa-gj3su-createdtoken%04d", k))
+			}
+			if s.Header.Get("Content-Length") != "" {
+				s.Header.Set("Content-Length", "n")
+			}
+		}
+		parts := c19Parts(s)
+		for k := range c19Leaks(secrets, parts) {
+			leaks[k] = true
+		}
+		d := c19DestOf(s.Host, remotes)
+		sentTerms = append(sentTerms, fmt.Sprintf("(%s, %s, %s)", gStr(d), gStr(s.Header.Get("Authorization")), c19PartsTerm(parts)))
+		sentDesc = append(sentDesc, map[string]interface{}{"to": d, "request": s})
+	}
+	term := fmt.Sprintf("CStack %s %s %s %s", q.term, dbTerm, gStrs(secrets), gList(sentTerms))
+	var dbRows interface{}
+	if db != nil {
+		rows := map[string]interface{}{}
+		for k, v := range db.rows {
+			rows[k] = map[string]string{"token_uuid": v.authUUID, "scopes": v.scopes, "user_uuid": v.userUUID}
+		}
+		dbRows = rows
+	}
+	desc := map[string]interface{}{"index": i, "kind": "legacy stack: " + kind, "placements": q.places, "content_type": q.ctype, "method": q.method, "target": q.target,
+		"body": q.body, "authorization": q.authHdr, "basic_password": q.basicPass, "cookie_token": q.cookieTok, "via": q.via, "response_code": rw.Code,
+		"database_rows_by_api_token": dbRows, "tokens_created": minted,
+		"sent_to_remotes": sentDesc, "sent_to_local_railsapi": nlocal, "secret_found_in": c19LeakList(leaks), "secrets": secrets}
+	places := append([]string(nil), q.places...)
+	sort.Strings(places)
+	cs.Add(i, term, desc, len(secrets) > 0 && len(sentTerms) > 0, "stack="+kind, "stack-placements="+strings.Join(places, "+"),
+		fmt.Sprintf("stack-sent=%d", len(sentTerms)), fmt.Sprintf("stack-leak=%v", len(leaks) > 0), "stack-database="+dbTag, fmt.Sprintf("stack-created-token=%v", minted > 0))
 }
